@@ -106,6 +106,14 @@ WRAPPERS = [
     ("list-in-set-nl", "{\n a = [\n", "\n ];\n}"), ("comment-set", "{ # c\n a = ", "; }"),
     ("comment-list", "[ # c\n", " ]"), ("block-comment-paren", "( /* c */ ", ")"),
 ]
+# binary operators with the line break before / after / around the operator, right-nested with
+# and (for the right-associative ones) without parentheses, and left-nested
+for _op in ["+", "++", "//", "->", "&&", "==", "-"]:
+    for _tag, _l, _r in (("nl-after", " ", "\n"), ("nl-before", "\n", " "), ("nl-both", "\n", "\n")):
+        WRAPPERS.append((f"binop{_op}:{_tag}:right-paren", f"a{_l}{_op}{_r}(", ")"))
+        WRAPPERS.append((f"binop{_op}:{_tag}:left-paren", "(", f"){_l}{_op}{_r}b"))
+        if _op in ("++", "//", "->"):
+            WRAPPERS.append((f"binop{_op}:{_tag}:right", f"a{_l}{_op}{_r}", ""))
 PAIR_CORE = ["set", "set-nl", "list", "list-nl", "paren", "let-body", "let-value", "with-body-nl",
              "with-env", "assert-cond-paren-nl", "if-cond", "lambda", "formals", "call-arg-tight",
              "call-set", "select-base", "inherit-from", "binop-right", "interp", "comment-set"]
